@@ -404,7 +404,7 @@ class Vcf(Format):
     phased = None
 
     def header(self, rng, style):
-        lines = ["##fileformat=VCFv4.2"]
+        lines = ["##fileformat=VCFv4.2", "##source=bnpmon%d" % rng.randrange(10 ** 6)]      # per-file header text
         if self.with_info_header:
             for k, num, typ in info_defs(style):
                 lines.append('##INFO=<ID=%s,Number=%s,Type=%s,Description="%s field">' % (k, num, typ, k))
@@ -503,7 +503,8 @@ class Sam(Format):
     fields = ("name", "flag", "chromosome", "position", "mapq", "cigar", "next_chromosome", "next_position", "length", "sequence", "quality", "extra")
 
     def header(self, rng, style):
-        return "@HD\tVN:1.6\tSO:coordinate\n@SQ\tSN:chr1\tLN:100000\n@SQ\tSN:chr2\tLN:5000\n"
+        # every file has its own header text (a program line with a per-file id): a header is a property of the file it came from
+        return "@HD\tVN:1.6\tSO:coordinate\n@SQ\tSN:chr1\tLN:100000\n@SQ\tSN:chr2\tLN:5000\n@PG\tID:gen%d\tPN:bnpmon\n" % rng.randrange(10 ** 6)
 
     def gen_record(self, rng, prof, style, i):
         s = seq(rng, prof, "ACGTN")
